@@ -206,6 +206,93 @@ def run_shape(C, job):
     C.bounds[label] = {'paths': len(outs)}
 
 
+# ------------------------------------------------------------------------------------------------ Q header parameter quoting
+TCHARS = b"!#$%&'*+-.^_`|~"
+
+
+def run_quote(C, nmax):
+    """http_headers::quote_ascii_string_if_required (the encoder of every XMatrix / Content-Disposition parameter value)
+    executed from MIR on every printable-ASCII text of <= nmax bytes: the result is either the text itself, and then it is a
+    non-empty RFC 9110 token, or `"` + text with exactly `\` and `"` backslash-escaped + `"` - the unique quoted-string a
+    RFC 9110 parser (and unescape_string) decodes back to the text."""
+    E = C.fresh_engine(['common'], N=8)
+    E.feas_mode = 'budget'; E.feas_timeout_ms = 1000; E.feas_fresh = True
+    f = E.find_func('http_headers::quote_ascii_string_if_required')
+    tchar = lambda b: z3.Or(z3.And(z3.UGE(b, 0x30), z3.ULE(b, 0x39)), z3.And(z3.UGE(b, 0x41), z3.ULE(b, 0x5A)), z3.And(z3.UGE(b, 0x61), z3.ULE(b, 0x7A)),
+                            *[b == c for c in TCHARS])
+    special = lambda b: z3.Or(b == 0x5C, b == 0x22)
+
+    def py_ref(t):
+        if t and all(ch.isascii() and (ch.isalnum() or ch.encode() in [bytes([c]) for c in TCHARS]) for ch in t):
+            return t
+        return '"' + t.replace('\\', '\\\\').replace('"', '\\"') + '"'
+
+    def native_ok(t):
+        res = C.native({'op': 'c16:quote', 's': t})
+        C.model_validation += 1
+        return res, (res.get('r') == 'ok' and res.get('q') == py_ref(t) and (res.get('borrowed') or res.get('unquoted') == t) and (not res.get('borrowed') or res.get('token')))
+    for n in range(0, nmax + 1):
+        elems = [z3.BitVec(f'q{n}_{j}', 8) for j in range(n)]
+        cons = [z3.And(z3.UGE(b, 0x20), z3.ULE(b, 0x7E)) for b in elems]
+        s = Str(z3.K(z3.BitVecSort(64), z3.BitVecVal(0, 8)), bv(0), bv(n), True, n, None, n, elems)
+        del E.axioms[:]
+        outs = E.run_func(f, [s], cons)
+        C.absorb(E)
+        all_tok = z3.And(z3.BoolVal(n > 0), *[tchar(b) for b in elems])
+        bad = []
+        for o in outs:
+            if o.kind != 'ret':
+                bad.append(o.cond()); continue
+            v = o.value
+            if v.variant == 'Borrowed':
+                r_ = E.as_str(o.st, v.fields[0])
+                ln = z3.simplify(r_.ln)
+                same = z3.And(ln == n, *[r_.at(j) == elems[j] for j in range(n)])
+                bad.append(z3.And(o.cond(), z3.Not(z3.And(all_tok, same))))
+                continue
+            r_ = E.as_str(o.st, v.fields[0])
+            ln = z3.simplify(r_.ln)
+            if not z3.is_bv_value(ln):
+                bad.append(o.cond()); continue
+            ln = ln.as_long()
+            need = ln - 2 - n
+            alts = []
+            for esc_set in (itertools.combinations(range(n), need) if 0 <= need <= n else []):
+                pos, cs = 1, [r_.at(0) == 0x22, r_.at(ln - 1) == 0x22]
+                for j, b in enumerate(elems):
+                    if j in esc_set:
+                        cs += [special(b), r_.at(pos) == 0x5C, r_.at(pos + 1) == b]; pos += 2
+                    else:
+                        cs += [z3.Not(special(b)), r_.at(pos) == b]; pos += 1
+                alts.append(z3.And(*cs))
+            okc = z3.And(z3.Not(all_tok), z3.Or(*alts)) if alts else z3.BoolVal(False)
+            bad.append(z3.And(o.cond(), z3.Not(okc)))
+        r, m = C.solve_split(f'quote_ascii_string_if_required on every printable-ASCII text of {n} bytes: itself iff a non-empty token, otherwise the quoted-string with exactly \\ and " escaped', cons + list(E.axioms), bad, chunk=32)
+        if r == 'sat':
+            t = bytes(m.eval(b, model_completion=True).as_long() for b in elems).decode()
+            res, ok_ = native_ok(t)
+            vec = {'op': 'c16:quote', 's': t, 'native': res, 'expected': py_ref(t)}
+            if not ok_:
+                C.report_violation(f'header parameter value {t!r} is encoded as {res.get("q")!r}; a RFC 9110 parser needs {py_ref(t)!r} to read the value back', vec)
+                C.samples.append({'quote_counterexample': vec})
+                return
+            raise Broken(f'quote: model does not reproduce natively: {vec}')
+        # vacuity / model validation: one token and one non-token instance of this length through the native build
+        for want_tok in (True, False):
+            r2, m2 = C.solve(f'quote witness ({n} bytes, token={want_tok})', cons + [all_tok == want_tok])
+            if r2 == 'sat':
+                t = bytes(m2.eval(b, model_completion=True).as_long() for b in elems).decode()
+                res, ok_ = native_ok(t)
+                if not ok_:
+                    raise Broken(f'quote witness {t!r}: native {res} disagrees with the reference {py_ref(t)!r}')
+                C.samples.append({'quote_witness': t, 'native': res.get('q')})
+        C.bounds[f'quote:{n}'] = {'paths': len(outs), 'bytes': n}
+    for t in ['matrix.org:8448', '[2001:db8::1]:8448', 'a"b\\c', '', 'ed25519:1']:
+        res, ok_ = native_ok(t)
+        if not ok_:
+            C.report_violation(f'header parameter value {t!r} is encoded as {res.get("q")!r}, expected {py_ref(t)!r}', {'op': 'c16:quote', 's': t, 'native': res, 'expected': py_ref(t)})
+
+
 def body(C):
     C.engine(['common'], N=8)
     C.build_replayer(['common'])
@@ -225,6 +312,9 @@ def body(C):
         'tracing macros are modelled as disabled (no subscriber installed)',
     ]
     parallel_map(C, run_shape, jobs)
+    nq = 4 if C.tier == 'quick' else 6
+    C.assumptions.append(f'header parameter quoting: every text of <= {nq} printable ASCII bytes (0x20..0x7E); longer values, tabs and non-ASCII (removed by sanitize_for_ascii_quoted_string) are outside the bound; the Display impl of XMatrix in ruma-federation-api that calls the encoder per field is outside the claim')
+    run_quote(C, nq)
 
 
 if __name__ == '__main__':
